@@ -264,6 +264,23 @@ def run(tier, seed, replay):
             src = ".[0] as $x | .[1] as $a | $x | try " + n + ("(" + "; ".join(["$a"] * int(ar)) + ")" if int(ar) else "") + ' catch "err"'
             hcases.append({"id": len(hcases), "k": "history", "src": src, "input": {"t": "arr", "a": [r.choice(uni), r.choice(uni)]}, "other": {"t": "arr", "a": [r.choice(uni), r.choice(uni)]}})
         check_history(hcases)
+        # ---------------- a module loader without a usable search entry grants nothing (the empty string is documented as ignored)
+        amb = work.path("ambient-cwd", "ambient.jq")
+        open(amb, "w").write('def f: "from the working directory";')
+        open(os.path.join(os.path.dirname(amb), "ambient.json"), "w").write('"data from the working directory"')
+        ecases = [{"id": i, "k": "emptyloader", "src": src, "paths": paths} for i, (src, paths) in enumerate(
+            [(src, paths) for paths in ([""], None, [], ["", ""]) for src in ('import "ambient" as a; a::f', 'import "ambient" as $d; $d', 'include "ambient" {search: ""}; f', 'include "ambient"; f', '"ambient" | modulemeta',
+                                                                             'import "ambient" as a {search: ""}; a::f')])]
+        vc.write_ndjson(work.path("empty.cases"), ecases)
+        vc.sh([vh, "caps", "-in", work.path("empty.cases"), "-out", work.path("empty.out")], cwd=os.path.dirname(amb), timeout=300)
+        for c, x in zip(ecases, vc.read_ndjson(work.path("empty.out"))):
+            rep.count("evaluations")
+            if "cerr" in x or x.get("err"):
+                rep.count("traces_validated_against_impl")
+                rep.nontrivial(["emptyloader", c["src"], c["paths"]])
+            else:
+                rep.violation("a module loader with the search list %r reads modules from the working directory: %r gives %s" % (c["paths"], c["src"], [jqgen.unV(v) for v in x.get("out", [])]),
+                              {"family": "caps", "case": c, "actual": x})
         # the definition runs against the specification
         counters = evalfam.check_cases(rep, work, vh, prelude, dcases, tag="defspec", timeout=1500, per_shard_min=20)
         rep.cov["definition_verdicts_vs_spec"] = counters
